@@ -18,7 +18,7 @@ from symx.core import reraise_if_harness  # noqa: E402
 
 LEVEL = "other"
 FUNCTIONS = ["black_it.utils.base:get_closest", "black_it.utils.base:digitize_data"]
-NUMBER_MODEL = "R (exact reals), R~ (reals + uninterpreted rounding of every subtraction with ground monotone/sign/odd axioms) and F16 (bit-precise IEEE half precision, grids of <= 2 (quick) / 3 (thorough) elements)"
+NUMBER_MODEL = "R (exact reals), R~ (reals + uninterpreted rounding of every subtraction with ground monotone/sign/odd axioms) and F16 (bit-precise IEEE half precision, grids of <= 2 elements)"
 EXPLANATION = (
     "Bounded symbolic execution of the real get_closest/digitize_data: grid elements and values are z3 Reals "
     "(arbitrary strictly increasing grid, value anywhere), every path of numpy's searchsorted + the step-back rule is "
@@ -112,7 +112,7 @@ def case_single(n, rounded):
     return Case(f"single-n{n}-{'Rt' if rounded else 'R'}", body, replay, time_budget=900)
 
 
-def case_f16(n):
+def case_f16(n, solver_timeout_ms=120000):
     """Bit-precise IEEE half precision: grid and value are z3 FloatingPoint(5,11) terms, every subtraction/abs/comparison of the
     real get_closest is the IEEE operation. A reduced-WIDTH bound, not a binary64 claim."""
 
@@ -140,7 +140,7 @@ def case_f16(n):
         bad = not any(r == x for x in g) or any(abs(np.float16(v - x)) < abs(np.float16(v - r)) for x in g)
         return bool(bad), f"float16: get_closest({g.tolist()}, [{float(v)}]) -> {float(r)}"
 
-    return Case(f"f16-n{n}", body, replay, time_budget=600, solver_timeout_ms=120000, witness_paths=0, cross_budget=0)
+    return Case(f"f16-n{n}", body, replay, time_budget=600, solver_timeout_ms=solver_timeout_ms, witness_paths=0, cross_budget=0)
 
 
 def case_idem(n):
@@ -253,8 +253,10 @@ def cases(tier, seed):
         cs.append(case_single(n, True))
     for n in idem:
         cs.append(case_idem(n))
-    for n in ((1, 2) if tier == "quick" else (1, 2, 3)):
-        cs.append(case_f16(n))
+    # three-element grids in half precision left the solver without an answer within 2 minutes per query: the bit-precise claim is
+    # for grids of <= 2 elements in both tiers (the thorough tier gives the query more time)
+    for n in (1, 2):
+        cs.append(case_f16(n, solver_timeout_ms=120000 if tier == "quick" else 900000))
     for shape, ns in dig:
         cs.append(case_digitize(shape, ns))
     return cs
